@@ -1,8 +1,15 @@
-#!/bin/sh
-# audit/seeds.sh [tier]: re-confirm and re-run every stored seeded change against /repo's HEAD; prints one line each
-for d in /verif/seeded/C*; do
-  pid=$(basename $d | cut -d- -f1)
-  printf "%s " "$(basename $d)"
-  chk=$(/venv/bin/python -c "import json;print(json.load(open('$d/meta.json')).get('checked_with','$pid'))")
-  /verif/audit/seed.py $pid $d --tier ${1:-quick} --check $chk 2>&1 | tail -1 | cut -c1-220
-done
+#!/bin/bash
+# audit/seeds.sh [tier] [par]: re-confirm and re-run every stored seeded change against /repo's HEAD; prints one line each.
+# Seeds of one property share a scratch worktree (/tmp/wt/<Cxx>) and run one after the other; properties run [par] at a time.
+tier=${1:-quick}; par=${2:-4}
+one() {
+  pid=$1; tier=$2
+  for d in /verif/seeded/$pid-*; do
+    chk=$(/venv/bin/python -c "import json;print(json.load(open('$d/meta.json')).get('checked_with','$pid'))")
+    ben=$(/venv/bin/python -c "import json;print('--benign' if json.load(open('$d/meta.json')).get('kind')=='benign' else '')")
+    r=$(/verif/audit/seed.py $pid $d --tier $tier --check $chk $ben 2>&1 | tail -1 | cut -c1-220)
+    echo "$(basename $d) $r"
+  done
+}
+export -f one
+ls /verif/seeded | cut -d- -f1 | sort -u | xargs -P $par -I{} bash -c "one {} $tier"
